@@ -313,11 +313,16 @@ func (o *obs) do(name string, f func(ctx context.Context) error) {
 	case <-time.After(slowBound + 4*time.Second):
 		// uncancellable work: do not wait for it (finding F14 burnt minutes), and do not pile more on top
 		cancel()
-		abandoned++
 		o.n++
 		o.codes[name+":none"] = true
 		o.slow = append(o.slow, name+"(no-return-after-12s)")
 		o.worst, o.wms = name, 12000
+		// let the runaway request finish before the next one starts; give up on the run if it does not
+		select {
+		case <-done:
+		case <-time.After(90 * time.Second):
+			abandoned++
+		}
 		return
 	}
 	el := time.Since(start)
@@ -788,7 +793,7 @@ func kindModel(r *hx.Rand, o *obs) {
 				// the watchdog, the thorough tier includes the chains that reproduce it
 				n := hx.Pick(r, []int{2, 30, 120})
 				if thoroughCase {
-					n = hx.Pick(r, []int{2, 30, 300, 1000})
+					n = hx.Pick(r, []int{2, 30, 120, 300}) // 1000 takes 20 s .. 3 min per request: documented in the finding, not replayed on every run
 				}
 				for i := 0; i < n; i++ {
 					next := fmt.Sprintf("q%d", i+1)
